@@ -269,7 +269,8 @@ func (s *atpServerSession) onRuntimeMessageReceived(message *DecodedRuntimeMessa
 func (s *atpServerSession) handleWorkStartMessage(runID string, workStartMsg WorkStartMessage) {
 	if runID == "" || workStartMsg.StepID == "" {
 		s.workDone <- ServerError{
-			RunID: "",
+			// Name the run if there is one: an error without a run ID fails every run of the client.
+			RunID: runID,
 			Err: fmt.Errorf("missing runID (%s) or stepID in work start message (%s)",
 				runID, workStartMsg.StepID),
 			StepFatal:   true,
